@@ -198,7 +198,7 @@ def run_c04(run: core.Run, n: int) -> None:
             want = ev_ref(t, v)
             try:
                 got = v in res
-                got2 = res.contains(v) if hasattr(res, "contains") else got
+                got2 = res.contains(v)      # every result, the empty and the universal one too (fixed defect D30)
             except Exception as e:  # noqa: BLE001
                 run.fail(core.Failure(f"in|{show(t)}|{v}", f"`{v} in` result of {show(t)} raised {type(e).__name__}",
                                       {"op": "tree", "tree": t, "v": str(v)}))
@@ -451,7 +451,10 @@ def replay(data: dict) -> bool:
         except Exception:  # noqa: BLE001
             return True
         vs = [Version(r["v"])] if "v" in r else FINALS
-        return any((v in res) != ev_ref(t, v) for v in vs)
+        try:
+            return any((v in res) != ev_ref(t, v) or res.contains(v) != ev_ref(t, v) for v in vs)
+        except AttributeError:
+            return True
     return True
 
 
